@@ -461,6 +461,51 @@ def run(chk, repo, tier):
                           line=L.lineno,
                           witness='X = W; X = 2; Z = X: dependencies(Z) reports W')
 
+    # ---------------------------------------------------------------- D9 (continued): no early termination except on an empty set
+    for L in loops:
+        rv = next(iter(res_names))
+        for b in [x for x in ast.walk(L) if isinstance(x, (ast.Break, ast.Return))]:
+            guard = None
+            for I in ast.walk(L):
+                if isinstance(I, ast.If) and any(b is x for x in ast.walk(I)):
+                    guard = I
+            gt = unparse(guard.test) if guard is not None else ''
+            ok = gt in (f'not {rv}', f'len({rv}) == 0', f'{rv} == set()')
+            chk.instance(D9, f'dependencies: early exit `if {gt}: {type(b).__name__.lower()}` only when nothing is wanted any more: {ok}')
+            if not ok:
+                chk.violation(D9, stc.module.rel, dep.qualname, f'if {gt}: break',
+                              'the backward scan stops before index 0 on a condition that is not "no symbol is wanted any more": '
+                              'definers of another kind (the ODE system defines the amounts) are skipped', line=b.lineno,
+                              witness='IPRED = A_CENTRAL(t) after the ODE system: dependencies(IPRED) stops before the ODE and '
+                                      'loses AMT, the thetas and the etas')
+    # ---------------------------------------------------------------- D10 redefinitions in the shadowing-aware dependency map
+    D10 = chk.rule('D10', '_dependency_graph: when a symbol is redefined, its previous definition is expanded into every '
+                          'definition that used it (whatever the new definition looks like)', floor=2)
+    xm = repo.module('pharmpy.modeling.expressions')
+    dg = xm.functions.get('_dependency_graph')
+    if dg is None:
+        raise AnalysisError('_dependency_graph not found')
+    guards = [I for I in ast.walk(dg.node) if isinstance(I, ast.If) and 'previous_def' in unparse(I.test)]
+    if not guards:
+        raise AnalysisError('D10: redefinition guard not found')
+    for I in guards:
+        extra = {x.id for x in ast.walk(I.test) if isinstance(x, ast.Name)} - {'previous_def'}
+        rewrites = [a for a in ast.walk(I) if isinstance(a, ast.Assign) and isinstance(a.targets[0], ast.Subscript)
+                    and 'previous_def' in unparse(a.value) and any(
+                        isinstance(Lp, ast.For) and any(a is x for x in ast.walk(Lp)) and 'items' in unparse(Lp.iter)
+                        for Lp in ast.walk(I))]
+        chk.instance(D10, f'redefinition handled under `if {unparse(I.test)}` (extra conditions: {sorted(extra)})')
+        chk.instance(D10, f'previous definition expanded into the other entries of the map: {bool(rewrites)}')
+        if extra:
+            chk.violation(D10, xm.rel, dg.name, f'if {unparse(I.test)}',
+                          'the previous definition is only taken into account under an extra condition on the new definition',
+                          line=I.lineno,
+                          witness='TMP = THETA1*WGT*exp(ETA1); CL = TMP; TMP = THETA2; V = TMP: depends_on(CL, ETA1) is False')
+        if not rewrites:
+            chk.violation(D10, xm.rel, dg.name, 'no rewrite of the entries that used the redefined symbol',
+                          'definitions that used the old value now point at the new definition', line=I.lineno,
+                          witness='TMP = THETA1*WGT*exp(ETA1); CL = TMP; TMP = THETA2; V = TMP: has_random_effect(CL) is False')
+
 
 def _parent(root, node):
     for p in ast.walk(root):
